@@ -200,6 +200,8 @@ func implC16(line string) string {
 		return implView(f)
 	case "recs":
 		return implRecs(f)
+	case "cb":
+		return implCb(f)
 	}
 	return "bad-op"
 }
@@ -327,6 +329,9 @@ func genC16(c *h.Ctx) {
 	}
 	for k := 0; k <= 4; k++ {
 		c.Add(fmt.Sprintf("ret %d", k), "ret")
+	}
+	for _, k := range []string{"ret", "range", "type", "num", "str", "obj", "retstr", "retfrac", "uncaught"} {
+		c.Add("cb "+k, "cb")
 	}
 	// structured calls
 	for i := 0; i < c.N(14000, 500000); i++ {
